@@ -18,6 +18,9 @@ def rename_alias(q, old, new):
     v.from_items = [(k, new if a == old else a) for k, a in q.from_items]
     ren = {old: new}
     v.cond = E.rename(q.cond, ren) if q.cond is not None else None
+    # a body may speak of a FROM alias directly (a predicate without parameters does): there the alias is renamed too,
+    # unless a formal of that predicate has its name
+    v.preds = [QG.Pred(p.name, list(p.params), p.body if old in [n for _, n in p.params] else E.rename(p.body, ren)) for p in q.preds]
     v.select_tokens = []
     for toks in q.select_tokens:
         out = []
